@@ -21,6 +21,12 @@ def run(ctx):
     mws = ctx.driver.run([{"op": "write", "pose": c} for c in cases])
     refs = [refenc.v02(c) for c in cases]
     mrs = ctx.driver.run([{"op": "read", "hex": r.hex()} for r in refs])
+    # the Lean reference encoder the theorems are about (Model/SpecEnc.lean `specFile`) against the independent Python encoder
+    with_f32 = [(c, r) for c, r in zip(cases, refs) if "f32" in c["body"]["fps"]]
+    for (c, r), ms in zip(with_f32, ctx.driver.run([{"op": "spec_file", "version": "v02", "pose": c, "fps_bits": c["body"]["fps"]["f32"]} for c, _ in with_f32])):
+        ctx.count("spec_encoder:v0.2")
+        if not ms.get("ok") or ms["hex"] != r.hex():
+            ctx.violation("the Lean reference encoder (specFile) and the independent Python encoder produce different files", c if pc.case_size(c) < 3000 else {"note": "large case"}, {"model_hex": (ms.get("hex") or "")[:400], "python_hex": r.hex()[:400]}, False, size=pc.case_size(c))
     for case, mw, ref, mr in zip(cases, mws, refs, mrs):
         size = pc.case_size(case)
         slim = case if size < 3000 else {"note": "large case", "size": size}
